@@ -211,6 +211,13 @@ def check_case(case):
             r.check("ctor", float(np.max(np.abs(M - R))), 1e-12, key + ":ctor", "euler_to_u = Rz(phi1)Rx(PHI)Rz(phi2)", R, M)
             chain(r, mod, R, key)
             r.nontrivial.add("band:%r,%r,%r" % (p1, PHI, p2))
+            # the same rotation carrying ordinary rounding noise in its "zero" entries (a product A.(A'.R), not a formula-built matrix):
+            # proper to 1e-15, yet no element is exactly 0 or 1
+            if d <= 1e-9 and phis().index(p2) % 4 == 0:
+                for qa in ((2, 1, 0, -1), (1, 2, -1, 3)):
+                    A = alph.quat_to_mat(qa)
+                    Rn = A @ (A.T @ R)
+                    chain(r, mod, Rn, key + ":noisy%s" % (qa,))
     elif k == "rod":
         dirs = alph.directions(2 if tier == "quick" else 3)
         for dvec in dirs:
@@ -224,8 +231,8 @@ def check_case(case):
                     r.check("ctor", float(np.max(np.abs(M - R))), 1e-12, key, "rod_to_u = transpose of the active rotation about r by 2 atan|r|", R, M)
                 if n > 0:
                     r.nontrivial.add("rod:%s:%g" % (dvec, n))
-                if n <= 10:
-                    # inverse from a constructor output (non-initial state)
+                if n <= 1e3:
+                    # inverse from a constructor output (non-initial state); |r| = 1e3 is 0.115 deg from a half turn
                     back = inv_rod(r, mod, np.asarray(M, float), key)
         # argument kinds: whole-number Rodrigues vectors as int list / tuple / int array / float32; whole-number angles as int / numpy ints
         for iv in ((1, 2, 3), (0, 0, 2), (1, 0, 0), (-1, 1, 0), (0, 0, 0), (2, -3, 1)):
